@@ -168,6 +168,15 @@ theorem noShared_frame (cfg : Cfg) (c : Ctx) (op : Op) (hn : NSo c.st) : Fh c (a
   | addRefund g => exact ⟨rfl, hn⟩
   | subRefund g => exact ⟨rfl, hn⟩
   | prepare x i => exact ⟨rfl, hn⟩
+  | setCredits a n =>
+    obtain ⟨h1, h2⟩ := ensure_fh c a hn
+    have ht := NSo_peek h1.2 h2
+    exact h1.trans ⟨rfl, NSo_putObj (c := push _ _) h1.2 a _ (by exact ht)⟩
+  | addPreimage p d =>
+    simp only [applyOp]
+    split
+    · exact ⟨rfl, hn⟩
+    · exact ⟨rfl, hn⟩
 
 def runOps (cfg : Cfg) (c : Ctx) (ops : List Op) : Ctx := ops.foldl (applyOp cfg) c
 
@@ -185,7 +194,7 @@ theorem noShared_frame_ops (cfg : Cfg) (ops : List Op) : ∀ c, NSo c.st → Fh 
 theorem copy_repaired_noShared (cfg : Cfg) (hc : cfg.cloneTokens = true) (c : Ctx) :
     (copy cfg c).1 = c ∧ NSo (copy cfg c).2 := by
   unfold copy
-  generalize hinit : ((c, { State.empty with trie := c.st.trie, refund := c.st.refund, logs := c.st.logs, logSize := c.st.logSize }) : Ctx × State) = init
+  generalize hinit : ((c, { State.empty with trie := c.st.trie, refund := c.st.refund, logs := c.st.logs, logSize := c.st.logSize, preimages := c.st.preimages }) : Ctx × State) = init
   have h0 : init.1 = c ∧ NSo init.2 := by
     subst hinit
     exact ⟨rfl, fun a o h => by simp [State.empty] at h⟩
